@@ -6,6 +6,8 @@ import (
 	"os"
 	"strings"
 	"time"
+
+	"verif/harness/synth"
 )
 
 // readerRun executes reader cases on the standard library (R3) and on fastgo,
@@ -159,6 +161,49 @@ func corpusOf(rng *rand.Rand, kind string, n int, maxLen int, stdOnly bool) []na
 	return out
 }
 
+// boundaryStreams: blocks that end at and around the points where the
+// inflater's internal output window fills and slides (64 KiB, then every
+// 32 KiB), with codes short enough that several symbols share one decoding
+// table entry: the carry-over of literals, copies and the end-of-block symbol
+// across a full window.  stdOnly: encoders whose output does not depend on
+// the acceleration level of the worker.
+func boundaryStreams(rng *rand.Rand, perPoint int, stdOnly bool) []namedStream {
+	var out []namedStream
+	encs := []struct {
+		impl  string
+		level int
+	}{{"std", -2}, {"std", -2}, {"std", 6}, {"std", 0}, {"std", 1}, {"fastgo", -2}, {"fastgo", 1}, {"fastgo", 2}}
+	if stdOnly {
+		encs = encs[:5]
+	}
+	classes := []string{"alpha4", "alpha4", "alpha3", "text", "zeros", "runs", "dom50"}
+	for _, base := range []int{65536, 98304, 131072} {
+		for d := -3; d <= 3; d++ {
+			for k := 0; k <= perPoint; k++ {
+				e := encs[rng.Intn(len(encs))]
+				cl := classes[rng.Intn(len(classes))]
+				if k == 0 {
+					// always: literal-only blocks over a four-letter alphabet (two-bit codes)
+					e, cl = encs[0], "alpha4"
+				}
+				tail := pick(rng, []int{0, 1, 2, 300, 40000})
+				ds := DataSpec{Class: cl, Seed: rng.Int63n(1 << 30), Len: base + d + tail}
+				out = append(out, namedStream{name: fmt.Sprintf("boundary-%s%d-%s-%d%+d+%d", e.impl, e.level, cl, base, d, tail), kind: "flate",
+					s: encStream(e.impl, "flate", e.level, ds, []int{base + d})})
+			}
+			// the same with a synthesised literal-only block of exactly base+d bytes
+			sh := []string{"flat", "skew", "random"}[rng.Intn(3)]
+			desc := synth.Desc{Seed: rng.Int63n(1 << 40), Blocks: []synth.BlockDesc{
+				{Type: "dyn", LShape: sh, DShape: "none", Toks: "lits", N: base + d},
+				{Type: []string{"fixed", "dyn", "stored"}[rng.Intn(3)], LShape: "flat", DShape: "flat", Toks: "lits", N: 1 + rng.Intn(50)}}}
+			if _, _, err := desc.Build(); err == nil {
+				out = append(out, namedStream{name: fmt.Sprintf("boundary-synth-%s-%d%+d", sh, base, d), kind: "flate", s: RStream{Synth: &SynthSpec{desc}}})
+			}
+		}
+	}
+	return out
+}
+
 func sortInts(a []int) {
 	for i := 1; i < len(a); i++ {
 		for j := i; j > 0 && a[j] < a[j-1]; j-- {
@@ -193,6 +238,13 @@ func checkC04(c *Ctx) (int, error) {
 		nStreams = 40
 	}
 	streams := corpus(rng, "flate", nStreams, 120000)
+	bnd := boundaryStreams(rng, 1, false)
+	rng.Shuffle(len(bnd), func(i, j int) { bnd[i], bnd[j] = bnd[j], bnd[i] })
+	nb := 6
+	if c.Tier == "thorough" {
+		nb = len(bnd)
+	}
+	streams = append(streams, bnd[:minInt(nb, len(bnd))]...)
 	// truncations of some
 	base := len(streams)
 	for i := 0; i < base; i++ {
